@@ -137,7 +137,7 @@ theorem ps_raiseSig (st : St) (s : Int) : PStep st (raiseSig st s) := by
   · split
     · exact PStep.of_eq rfl rfl
     · split
-      · exact PStep.of_eq rfl rfl
+      · unfold sigRecord; split <;> first | exact PStep.of_eq rfl rfl | exact PStep.refl _
       · split
         · exact PStep.of_eq rfl rfl
         · exact PStep.refl st
@@ -768,7 +768,7 @@ theorem pfd_raiseSig (st : St) (s : Int) : (raiseSig st s).pfd = st.pfd ∧ (rai
   · split
     · exact ⟨rfl, rfl⟩
     · split
-      · exact ⟨rfl, rfl⟩
+      · unfold sigRecord; split <;> exact ⟨rfl, rfl⟩
       · split <;> exact ⟨rfl, rfl⟩
 
 theorem pfd_foldl_raiseSig (l : List Int) : ∀ st : St, (l.foldl raiseSig st).pfd = st.pfd ∧ (l.foldl raiseSig st).cfg = st.cfg := by
@@ -793,7 +793,10 @@ theorem pfd_ppoll (st : St) (t : Option Int) : (ppoll st t).1.pfd = (pollScan st
   · split
     · exact hr
     · split
-      · exact hr
+      · have hd : (deliverPending (pollRaise (pollScan st))).pfd = (pollRaise (pollScan st)).pfd ∧
+            (deliverPending (pollRaise (pollScan st))).cfg = (pollRaise (pollScan st)).cfg := by
+          unfold deliverPending; split <;> exact ⟨rfl, rfl⟩
+        exact ⟨hd.1.trans hr.1, hd.2.trans hr.2⟩
       · unfold pollTimeout
         split <;> exact hr
 
